@@ -1,4 +1,5 @@
 import WebPkg.Driver.Util
+import WebPkg.Model.CborSeq
 import WebPkg.Model.Cbor
 import WebPkg.Model.Deterministic
 import WebPkg.Model.BigEndian
@@ -74,6 +75,43 @@ def showDecB (r : Option (Bytes × Bytes)) (total : Nat) : String :=
   | some (v, rest) => s!"ok {toHex v} {total - rest.length}"
   | none => "err"
 
+/-- the call script of the line protocol as `CborSeq.Call`s (the type the sequence theorems of C11 are about): `n` calls from the
+    front of the token list; `fuel` bounds the nesting -/
+def parseCalls : Nat → Nat → List String → Option (List CborSeq.Call × List String)
+  | _, 0, toks => some ([], toks)
+  | 0, _, _ => none
+  | fuel + 1, n + 1, t :: rest => do
+    let tag := (t.take 1).toString
+    let arg := (t.drop 1).toString
+    let one (c : CborSeq.Call) (rest' : List String) : Option (List CborSeq.Call × List String) := do
+      let (cs, r) ← parseCalls fuel n rest'
+      pure (c :: cs, r)
+    if tag == "u" then one (.uint (← arg.toNat?)) rest
+    else if tag == "i" then one (.int (← parseInt arg)) rest
+    else if tag == "b" then one (.bytes (← ofHex arg)) rest
+    else if tag == "t" then one (.text (← ofHex arg)) rest
+    else if tag == "a" then one (.arrayHeader (← arg.toNat?)) rest
+    else if tag == "o" then one (.bool (arg == "1")) rest
+    else if tag == "m" then do
+      let cnt ← arg.toNat?
+      let rec entries : Nat → List String → Option (List (List CborSeq.Call × List CborSeq.Call) × List String)
+        | 0, ts => some ([], ts)
+        | k + 1, kt :: ts => do
+          if (kt.take 1).toString != "k" then none else
+          let (kc, ts1) ← parseCalls fuel (← (kt.drop 1).toString.toNat?) ts
+          match ts1 with
+          | vt :: ts2 =>
+            if (vt.take 1).toString != "v" then none else do
+            let (vc, ts3) ← parseCalls fuel (← (vt.drop 1).toString.toNat?) ts2
+            let (more, ts4) ← entries k ts3
+            pure ((kc, vc) :: more, ts4)
+          | [] => none
+        | _ + 1, [] => none
+      let (es, rest') ← entries cnt rest
+      one (.map es) rest'
+    else none
+  | _, _ + 1, [] => none
+
 def handleCbor (op : String) (args : List String) : Option String :=
   match op, args with
   | "cbor.enc", cnt :: toks => do
@@ -86,9 +124,12 @@ def handleCbor (op : String) (args : List String) : Option String :=
   | "cbor.enc.cont", cnt :: toks => do
     -- all calls on one encoder, refused calls included: a refused call contributes nothing to the stream
     let n ← cnt.toNat?
-    let (bs, err, rest) ← runCalls n toks [] none
+    let (_, err, rest) ← runCalls n toks [] none
     if !rest.isEmpty then none else
-    some s!"ok {toHex bs} {match err with | some e => "first-err-" ++ errName e | none => "noerr"}"
+    -- the stream is computed by `CborSeq.run`, the function of the sequence theorems (C11.run_tokens, run_shortest, run_refused_no_trace)
+    let (calls, rest2) ← parseCalls (toks.length + 1) n toks
+    if !rest2.isEmpty then none else
+    some s!"ok {toHex (CborSeq.run calls)} {match err with | some e => "first-err-" ++ errName e | none => "noerr"}"
   | "cbor.encdet", cnt :: toks => do
     let n ← cnt.toNat?
     let (bs, err, rest) ← runCalls n toks [] none
